@@ -251,9 +251,16 @@ def matrix(ctx: Ctx):
     ps = [p for p in flow.paths(inner.node) if p.kind == "return"]
     want = f"{sol}.add(({A}[rows[{k}]].id, {T}[cols[{k}]].id), table[rows[{k}]][cols[{k}]])"
     ok = flow.values_match(ps, want)
+    zipped = False
+    if not ok:
+        # the same read-back over zip(rows, cols): element k is the pair (rows[k], cols[k]), projected [0] for the vehicle and [1] for the request
+        want_z = f"{sol}.add(({A}[{k}[0]].id, {T}[{k}[1]].id), table[{k}[0]][{k}[1]])"
+        zipped = flow.values_match(ps, want_z)
+        ok = zipped
     ctx.check(ok, "D2", "DU.matrix", "pair k = (assignees[rows[k]].id, targets[cols[k]].id): both indices come from the solver", inner,
               why_bad=f"returns {flow.dump(ps[0].value)[:260] if ps else '?'}", construct="_add_to_solution:pair")
-    ok = any(d == f"ft.reduce(_add_to_solution, range(len(rows)), AssignmentSolution())" for d in src_calls)
+    ok = any(d == f"ft.reduce(_add_to_solution, range(len(rows)), AssignmentSolution())" for d in src_calls) if not zipped else \
+        any(d == "ft.reduce(_add_to_solution, zip(rows, cols), AssignmentSolution())" for d in src_calls)
     ctx.check(ok, "D2", "DU.matrix", "every solver pair is read back (k over range(len(rows)))", fn, why_bad="fold changed", construct="find_assignment:read-back")
     add = ctx.repo.func(AO, "AssignmentSolution.add")
     ps = [p for p in flow.paths(add.node) if p.kind == "return"]
